@@ -195,7 +195,7 @@ def _check_fn(f, route, pd, ref, rs, v, cls, stats, text):
                     stats["nonzero"] = True
                 if ok_piece:
                     try:
-                        nd, est = d8(f, r, h)
+                        nd, est = d8(f, r, h, scale=j.c[0].e)
                         if not abs(g - nd) <= 50 * est + 1e-9 * abs(g) + _tol(d1r):
                             v.append(("%s:deriv:vs_finite_difference" % route,
                                       "r=%r: deriv=%r but the 8th-order central difference of the same callable "
@@ -222,7 +222,7 @@ def _check_fn(f, route, pd, ref, rs, v, cls, stats, text):
                 stats["deriv2"] = stats.get("deriv2", 0) + 1
                 if ok_piece and hasattr(f, "deriv") and not math.isinf(d1r.u) and d1r.u == 0.0:
                     try:
-                        nd, est = d8(f.deriv, r, h)
+                        nd, est = d8(f.deriv, r, h, scale=d1r.e)
                         if not abs(g2 - nd) <= 50 * est + 1e-9 * abs(g2) + _tol(d2r):
                             v.append(("%s:deriv2:vs_finite_difference" % route,
                                       "r=%r: deriv2=%r but the central difference of deriv gives %r +- %.3g\n%s" % (
